@@ -44,6 +44,9 @@ def Int_Equal (a b : Int) : Bool := decide (a = b)
 def Int_BigInt (a : Int) : Int := a
 def Int_Neg (a : Int) : Int := -a
 def Int_ToLegacyDec (a : Int) : Dec := Dec.ofInt a
+/-- `Int.Int64()`: panics outside the int64 range -/
+def Int_Int64 (a : Int) : Option Int :=
+  if -9223372036854775808 ≤ a ∧ a < 9223372036854775808 then some a else none
 
 /-! ### int64 (Go's machine arithmetic wraps) -/
 def I64_wrap (x : Int) : Int := (x + 9223372036854775808).emod 18446744073709551616 - 9223372036854775808
